@@ -261,6 +261,15 @@ func c05Grid(r *rand.Rand, extra int) []CmpVal {
 	dn("dwide1", val.Dec("1234567890123456789012345678901234567890"), "1234567890123456789012345678901234567890")
 	dn("dwide2", val.Dec("1234567890123456789012345678901234567891"), "1234567890123456789012345678901234567891")
 	dn("dwide3", val.Dec("1000000000000000000000000000000000000.5"), "1000000000000000000000000000000000000.5")
+	// decimals the host built without a context (mantissa and scale) or in a 60-digit context of its own, and their negations
+	dn("draw20", val.V{K: "decraw", S: "12345678901234567.89"}, "12345678901234567.89")
+	dn("draw33", val.V{K: "decraw", S: "-987654321098765432109876543210.123"}, "-987654321098765432109876543210.123")
+	dn("d60w", val.V{K: "dec60", S: "1234567890123456789012345678901234567891"}, "1234567890123456789012345678901234567891")
+	for _, e := range [][3]string{{"(-draw20)", "-12345678901234567.89", "draw20"}, {"(0 - draw20)", "-12345678901234567.89", "draw20"}, {"(draw20 * -1)", "-12345678901234567.89", "draw20"}, {"(-(-draw20))", "12345678901234567.89", "draw20"},
+		{"(+draw20)", "12345678901234567.89", "draw20"}, {"(-draw33)", "987654321098765432109876543210.123", "draw33"}, {"($l = draw20)", "12345678901234567.89", "draw20"}, {"max(draw20, 1)", "12345678901234567.89", "draw20"}} {
+		kind, sv := "decraw", map[string]string{"draw20": "12345678901234567.89", "draw33": "-987654321098765432109876543210.123"}[e[2]]
+		g = append(g, CmpVal{Src: e[0], Kind: "num", Num: e[1], Data: &val.KV{K: e[2], V: val.V{K: kind, S: sv}}})
+	}
 	// strings
 	for _, s := range []string{"", "a", "ab", "abc", "b", "B", "é", "中", "az", "aé", "0", "1", "10", "9", "1.0", " ", "a ", "true", "null",
 		"\U0001F600", "\uff0c", "\ue000", "\U00020000", "\ufffd", "a\U0001F600", "a\uff0c", "\xff", "\xc3", "a\xff", "\U0010FFFF", "\uffff", "\ud7ff",
